@@ -6,8 +6,8 @@ from harness import interp_common as ic
 from harness.interp_gen import Gen
 
 PROP = 'C05'
-LEAN_MODULES = ['Glom.Props.C05', 'Glom.Props.C05Spine']
-FACT_FILES = []
+LEAN_MODULES = ['Glom.Props.C05', 'Glom.Props.C05Spine', 'Glom.Props.C05Repr']
+FACT_FILES = ['C05Facts']
 READY = True
 RULE = ('failing evaluations only: a random target (short, long (lists of 40+ items, 300-char strings) or non-ASCII '
         'reprs) and a spec tree of depth <= 3 (quick) / 4 (thorough) over linear nestings (dict/list/T/Spec/wrappers), '
@@ -196,8 +196,13 @@ def prepare(j, fns):
         if name not in fns:
             if kind == 'x_check':
                 fns[name] = build_check(j, fns)
+            elif kind == 'x_val':
+                import glom as G
+                fns[name] = G.Val(dec5(j['v'], fns))
             else:
                 fns[name] = XFn(name, kind)
+    if kind == 'x_val':
+        return
     for key_, v in j.items():
         if isinstance(v, (dict, list)):
             prepare(v, fns)
@@ -223,6 +228,455 @@ def build_check(j, fns):
     if j.get('spec') is not None:
         return G.Check(build(j['spec'], fns), **kw)
     return G.Check(**kw)
+
+
+# ----------------------------------------------------------------- values: codec and observation
+# The target of a case is interp_common's value JSON, extended (C05 only) by the builtin kinds whose
+# rendering reprlib limits separately: {'f': hex} float, {'by': [ints]} bytes, {'dq': […]} deque,
+# {'arr': [typecode, […]]} array, {'cx': [re, im]} complex.
+NAMED = {'len': len, 'print': print, 'isinstance': isinstance, 'sorted': sorted, 'ValueError': ValueError,
+         'frozenset': frozenset, 'int': int, 'Ellipsis': Ellipsis, 'NotImplemented': NotImplemented,
+         'range_big': range(10 ** 12, 10 ** 14, 12345), 'range3': range(3),
+         'slice_big': slice(10 ** 12, 10 ** 13, 10 ** 11)}
+
+
+def dec5(j, fns=None):
+    import array
+    import collections
+    if isinstance(j, dict):
+        if 'named' in j:
+            return NAMED[j['named']]
+        if 'f' in j:
+            return float.fromhex(j['f'])
+        if 'by' in j:
+            return bytes(j['by'])
+        if 'cx' in j:
+            return complex(j['cx'][0], j['cx'][1])
+        if 'dq' in j:
+            return collections.deque(dec5(x, fns) for x in j['dq'])
+        if 'arr' in j:
+            return array.array(j['arr'][0], [dec5(x, fns) for x in j['arr'][1]])
+        if 'l' in j:
+            return ic._reg(fns, 'dec-objs', [dec5(x, fns) for x in j['l']])
+        if 't' in j:
+            return tuple(dec5(x, fns) for x in j['t'])
+        if 'd' in j:
+            return ic._reg(fns, 'dec-objs', {dec5(k, fns): dec5(v, fns) for k, v in j['d']})
+        if 'set' in j:
+            return ic._reg(fns, 'dec-objs', set(dec5(x, fns) for x in j['set']))
+        if 'fs' in j:
+            return frozenset(dec5(x, fns) for x in j['fs'])
+    return ic.dec(j, fns)
+
+
+def enc5(v):
+    import array
+    import collections
+    for k, o in NAMED.items():
+        if o is v or (type(v) in (range, slice) and type(o) is type(v) and o == v):
+            return {'named': k}
+    if type(v) is float:
+        return {'f': v.hex()}
+    if type(v) is bytes:
+        return {'by': list(v)}
+    if type(v) is complex:
+        return {'cx': [v.real, v.imag]}
+    if type(v) is collections.deque:
+        return {'dq': [enc5(x) for x in v]}
+    if type(v) is array.array:
+        return {'arr': [v.typecode, [enc5(x) for x in v]]}
+    if type(v) is list:
+        return {'l': [enc5(x) for x in v]}
+    if type(v) is tuple:
+        return {'t': [enc5(x) for x in v]}
+    if type(v) is dict:
+        return {'d': [[enc5(k), enc5(x)] for k, x in v.items()]}
+    if type(v) is set:
+        return {'set': [enc5(x) for x in v]}
+    if type(v) is frozenset:
+        return {'fs': [enc5(x) for x in v]}
+    return ic.enc(v)
+
+
+class Unencodable(Exception):
+    pass
+
+
+RV_BUDGET = 6000
+
+
+def _chars(s, st):
+    for ch in s:
+        o = ord(ch)
+        if 0xD800 <= o <= 0xDFFF:
+            raise Unencodable('surrogate')
+        if o >= 127 and not ch.isprintable():
+            st['np'].add(o)
+
+
+def _sortable_kinds(xs):
+    """is the outcome of reprlib's `_possibly_sorted` on these keys one the Lean model computes?
+    (all int -> numeric, all str -> code points, a mix of the two -> TypeError, order kept)"""
+    if len(xs) <= 1:
+        return True
+    kinds = {type(x) for x in xs}
+    return kinds <= {int, str}
+
+
+def rv_enc(v, st, path=()):
+    """the value as the tree of builtin containers above leaves (lean/Glom/Model/C05Repr.lean `RV`), the way
+    reprlib.Repr.repr1 dispatches on it: by the NAME of its type.  Raises Unencodable for a value outside that
+    model (a container that contains itself, keys reprlib sorts in a way the model does not compute …)"""
+    import array
+    import builtins
+    import collections
+    import reprlib
+    from glom import core
+    st['n'] += 1
+    if st['n'] > RV_BUDGET:
+        raise Unencodable('too big')
+    t = type(v)
+    if t is int:
+        return {'i': v}
+    if t is str:
+        _chars(v, st)
+        return {'s': v}
+    if t in (list, tuple, set, frozenset, dict, collections.deque, array.array):
+        if id(v) in path:
+            raise Unencodable('cycle')
+        path = path + (id(v),)
+        if t is dict:
+            if not _sortable_kinds(list(v)):
+                raise Unencodable('keys')
+            return {'d': [[rv_enc(k, st, path), rv_enc(x, st, path)] for k, x in v.items()]}
+        if t in (set, frozenset):
+            xs = list(v)
+            if not _sortable_kinds(xs):
+                raise Unencodable('elements')
+            return {'set' if t is set else 'fs': [rv_enc(x, st, path) for x in xs]}
+        if t is collections.deque:
+            if v.maxlen is not None:
+                raise Unencodable('deque with maxlen')
+            return {'dq': [rv_enc(x, st, path) for x in v]}
+        if t is array.array:
+            return {'arr': [v.typecode, [rv_enc(x, st, path) for x in v]]}
+        return {'l' if t is list else 't': [rv_enc(x, st, path) for x in v]}
+    name = '_'.join(t.__name__.split())
+    if hasattr(reprlib.Repr, 'repr_' + name):
+        raise Unencodable('a %s that is not the builtin' % name)
+    try:
+        r = builtins.repr(v)
+    except BaseException:
+        raise Unencodable('repr raised')
+    _chars(r, st)
+    bn = core._BUILTIN_ID_NAME_MAP.get(id(v))
+    return {'o': r, 'bn': bn if isinstance(bn, str) else None}
+
+
+def rv_opt(v, st):
+    try:
+        return rv_enc(v, st)
+    except (Unencodable, RecursionError):
+        return None
+
+
+# ----------------------------------------------------------------- values that cross the default limits of reprlib
+# reprlib.Repr() elides below the 7th level of nesting, after 6 items (tuple, list, set, frozenset, deque), after
+# 5 (array), after 4 (dict), in the middle of a str / other repr longer than 30 and of an int longer than 40
+# characters.  Every value made here crosses at least one of these and has a repr far shorter than a trace line.
+LIMIT_CLASSES = ['deep_list', 'deep_tuple', 'deep_dict', 'deep_fset', 'deep_deque', 'deep_mixed',
+                 'wide_list', 'wide_tuple', 'wide_set', 'wide_fset', 'wide_deque', 'wide_array', 'wide_dict',
+                 'long_str', 'long_str_quotes', 'long_str_nonascii', 'long_int', 'long_bytes', 'long_other',
+                 'combined']
+BEYOND_CLASSES = ['beyond_list', 'beyond_str', 'beyond_int', 'beyond_dict']
+
+
+def small_leaf(rng):
+    return rng.choice([0, 1, 7, -3, 'x', 'ab', '', None, True, 2.5, b'y', "it's"])
+
+
+def nest(rng, kinds, depth, leaf):
+    v = leaf
+    for _ in range(depth):
+        k = rng.choice(kinds)
+        if k == 'list':
+            v = [v]
+        elif k == 'tuple':
+            v = (v,)
+        elif k == 'dict':
+            v = {rng.choice([1, 2, 'k', 'a']): v}
+        elif k == 'deque':
+            import collections
+            v = collections.deque([v])
+        elif k == 'fset':
+            try:
+                v = frozenset([v])
+            except TypeError:
+                v = (v,)
+        elif k == 'set':
+            try:
+                v = {v}
+            except TypeError:
+                v = [v]
+    return v
+
+
+def limit_value(rng, cls=None):
+    """a Python value of class `cls` (random when None)"""
+    import array
+    import collections
+    cls = cls or rng.choice(LIMIT_CLASSES)
+    d = rng.randint(7, 10)
+    n = rng.randint(7, 11)
+    if cls == 'deep_list':
+        return nest(rng, ['list'], d, small_leaf(rng))
+    if cls == 'deep_tuple':
+        return nest(rng, ['tuple'], d, small_leaf(rng))
+    if cls == 'deep_dict':
+        return nest(rng, ['dict'], d, small_leaf(rng))
+    if cls == 'deep_fset':
+        return nest(rng, ['fset', 'tuple'], d, rng.choice([0, 'x', None]))
+    if cls == 'deep_deque':
+        return nest(rng, ['deque', 'list'], d, small_leaf(rng))
+    if cls == 'deep_mixed':
+        return nest(rng, ['list', 'tuple', 'dict', 'deque', 'fset', 'set'], d, small_leaf(rng))
+    ints = rng.sample(range(-20, 60), n)
+    if cls == 'wide_list':
+        return [rng.choice([i, str(i)]) for i in ints] if rng.random() < 0.3 else ints
+    if cls == 'wide_tuple':
+        return tuple(ints)
+    if cls == 'wide_set':
+        return set(ints) if rng.random() < 0.6 else {'k%d' % i for i in ints}
+    if cls == 'wide_fset':
+        return frozenset(ints) if rng.random() < 0.6 else frozenset('k%d' % i for i in ints)
+    if cls == 'wide_deque':
+        return collections.deque(ints)
+    if cls == 'wide_array':
+        if rng.random() < 0.7:
+            return array.array(rng.choice('ilq'), ints[:rng.randint(6, n)])
+        return array.array('d', [i / 2 for i in ints[:rng.randint(6, n)]])
+    if cls == 'wide_dict':
+        m = rng.randint(5, 9)
+        p = rng.random()
+        if p < 0.4:
+            return {i: small_leaf(rng) for i in ints[:m]}              # int keys: reprlib sorts them
+        if p < 0.8:
+            return {'k%d' % i: small_leaf(rng) for i in ints[:m]}      # str keys: sorted by code point
+        return {(i if j % 2 else 'k%d' % i): j for j, i in enumerate(ints[:m])}   # mixed: cannot be sorted
+    if cls == 'long_str':
+        return ''.join(rng.choice('abcdefghij klmnop_-.:/') for _ in range(rng.randint(31, 46)))
+    if cls == 'long_str_quotes':
+        body = [rng.choice('abcdefg hij') for _ in range(rng.randint(31, 44))]
+        for q in rng.choice([["'"], ['"'], ["'", '"'], ['\\'], ["'", '\\'], ['\n', '\t'], ["'", '"', '\\', '\x00']]):
+            body[rng.randrange(len(body))] = q
+        return ''.join(body)
+    if cls == 'long_str_nonascii':
+        return ''.join(rng.choice('\u017c\xf3\u0142w\u2603\xe9\xfc\xdf abc\x7f\x85\xa0\xad\u200b\u2028\U0001f600\U000e0001') for _ in range(rng.randint(31, 42)))
+    if cls == 'long_int':
+        return rng.choice([1, -1]) * rng.randrange(10 ** 40, 10 ** 47)
+    if cls == 'long_bytes':
+        return bytes(rng.choice(b'abcxyz 01\'"\\\x00\xff') for _ in range(rng.randint(28, 40)))
+    if cls == 'long_other':
+        return rng.choice([complex(-1.2345678912345e-10, 9.8765432198765e+20), NAMED['range_big'],
+                           1.2345678901234567e-300, frozenset, len, print, isinstance, ValueError, NAMED['slice_big']])
+    if cls == 'combined':
+        a, b = limit_value(rng, rng.choice(LIMIT_CLASSES[:-1])), limit_value(rng, rng.choice(LIMIT_CLASSES[:-1]))
+        return rng.choice([lambda: [a, b], lambda: {'p': a, 'q': b}, lambda: (a, [b]), lambda: {1: [a], 2: (b,)}])()
+    # beyond the limits `_BBRepr.__init__` sets (1024): elided by glom too, far right of anything a line shows
+    if cls == 'beyond_list':
+        return list(range(rng.randint(1025, 1100)))
+    if cls == 'beyond_str':
+        return ''.join(rng.choice('abc def') for _ in range(rng.randint(1025, 1300)))
+    if cls == 'beyond_int':
+        return rng.randrange(10 ** 1030, 10 ** 1100)
+    if cls == 'beyond_dict':
+        return {i: i for i in range(rng.randint(1025, 1060))}
+    raise ValueError(cls)
+
+
+def xval(g, v):
+    """`Val(v)` for any value of the extended codec (built by `prepare`)"""
+    g.nfn += 1
+    return {'k': 'fn', 'name': 'xv%d' % g.nfn, 'kind': 'x_val', 'v': enc5(v)}
+
+
+def fail_on(rng, g, v):
+    """a spec that fails on the target `v`, whatever it is"""
+    p = rng.random()
+    if p < 0.35:
+        return rng.choice([{'k': 'str', 's': 'zz'}, {'k': 't', 'steps': [['[', ic.enc('zz')]]}, {'k': 't', 'steps': [['.', ic.enc('zz')]]}])
+    if p < 0.5:
+        return g.fn(rng.choice(['raise_ve', 'raise_glom', 'x_key', 'x_ownstr']))
+    if p < 0.6:
+        return {'k': 'match', 's': {'k': 'ty', 'name': rng.choice(other_types(v))}, 'dflt': None}
+    return rejected(rng, g, v)
+
+
+def limit_spec(rng, g):
+    """a spec that is itself a value crossing a default limit of reprlib (deep / wide dict, list, tuple specs, long
+    str / int / bytes constants, long T expressions inside containers) and fails at its innermost / last position,
+    on any target"""
+    T0 = {'k': 't', 'steps': []}
+    S = lambda x: {'k': 'str', 's': x}
+    lit = lambda x: {'k': 'lit', 'v': ic.enc(x)}
+    long_t = lambda: {'k': 't', 'steps': [['[', ic.enc(rng.choice(['aaaaaaaaaa', 'bbbbbbbbbbbb', 'cccccccc', 12345678]))]
+                                          for _ in range(rng.randint(3, 4))]}
+    p = rng.random()
+    d = rng.randint(7, 9)
+    if p < 0.15:
+        spec = S('zz')                                   # {1: {2: {… {7: 'zz'}}}}
+        for i in range(d, 0, -1):
+            spec = {'k': 'dict', 'es': [[lit(i) if rng.random() < 0.7 else S('k%d' % i), spec]]}
+        return spec
+    if p < 0.27:
+        spec = S('zz')                                   # ((((((('zz',),),),),),),)
+        for i in range(d):
+            spec = {'k': 'tuple', 'xs': [spec]}
+        return spec
+    if p < 0.39:
+        spec = S('zz')                                   # [[[[[[['zz']]]]]]] on a target nested as deep
+        for i in range(d):
+            spec = {'k': 'list', 'xs': [spec]}
+        return {'k': 'tuple', 'xs': [xval(g, nest(rng, ['list'], d, {'a': 1})), spec]}
+    if p < 0.5:
+        spec = S('zz')                                   # mixed nesting
+        for i in range(d):
+            spec = rng.choice([lambda s: {'k': 'tuple', 'xs': [s]}, lambda s: {'k': 'dict', 'es': [[S('k'), s]]},
+                               lambda s: {'k': 'tuple', 'xs': [T0, s]}])(spec)
+        return spec
+    if p < 0.62:
+        n = rng.randint(5, 8)                            # a dict spec with more than 4 entries, the last of which fails
+        keys = rng.sample(range(1, 40), n) if rng.random() < 0.5 else ['k%d' % i for i in rng.sample(range(1, 40), n)]
+        es = [[lit(k) if isinstance(k, int) else S(k), T0] for k in keys]
+        es[-1][1] = S('zz')
+        return {'k': 'dict', 'es': es}
+    if p < 0.72:
+        n = rng.randint(7, 9)                            # a tuple spec with more than 6 steps, the last of which fails
+        return {'k': 'tuple', 'xs': [T0] * (n - 1) + [S('zz')]}
+    if p < 0.8:
+        return S(''.join(rng.choice('abcdefgh_') for _ in range(rng.randint(31, 44))))     # a path of more than 30 characters
+    if p < 0.9:
+        # constants longer than their limit as dict keys / inside the containers of a spec
+        key = rng.choice([lit(rng.randrange(10 ** 40, 10 ** 46)), S('k' * rng.randint(31, 40))])
+        return {'k': 'dict', 'es': [[key, rng.choice([S('zz'), long_t()])]]}
+    # a T expression whose repr is longer than 30 characters, inside a container (rendered by `repr_instance`)
+    return rng.choice([lambda: {'k': 'dict', 'es': [[S('k'), long_t()]]},
+                       lambda: {'k': 'tuple', 'xs': [T0, {'k': 'dict', 'es': [[S('u'), T0], [S('v'), long_t()]]}]},
+                       lambda: {'k': 'tuple', 'xs': [long_t()]}])()
+
+
+def limit_case(rng, g, tier):
+    """(target, spec): a value of a limit-crossing class as the root target, as the target of a later chain step,
+    of a branch, of a dict value, injected at a random leaf position of a random spec; or a limit-crossing spec at
+    the root / at such a position"""
+    beyond = rng.random() < (0.04 if tier == 'quick' else 0.08)
+    v = limit_value(rng, rng.choice(BEYOND_CLASSES) if beyond else None)
+    T0 = {'k': 't', 'steps': []}
+    if rng.random() < 0.3:
+        inner = limit_spec(rng, g)
+    else:
+        inner = {'k': rng.choice(['tuple', 'tuple', 'pipe']), 'xs': [xval(g, v), fail_on(rng, g, v)]}
+    w = rng.random()
+    t = g.target()
+    if w < 0.2:
+        # the value is the root target itself
+        if inner['k'] in ('tuple', 'pipe') and inner['xs'] and inner['xs'][0].get('kind') == 'x_val':
+            return v, inner['xs'][1]
+        return t, inner
+    if w < 0.3:
+        # … the target of a later step: reached through the root target
+        wrap = rng.choice(['d', 'l', 't'])
+        if inner['k'] in ('tuple', 'pipe') and inner['xs'] and inner['xs'][0].get('kind') == 'x_val':
+            tgt = {'a': v} if wrap == 'd' else ([v] if wrap == 'l' else (0, v))
+            acc = {'k': 'str', 's': 'a'} if wrap == 'd' else {'k': 't', 'steps': [['[', ic.enc(0 if wrap == 'l' else 1)]]}
+            return tgt, {'k': inner['k'], 'xs': [acc, inner['xs'][1]]}
+        return t, inner
+    if w < 0.4:
+        return t, {'k': 'dict', 'es': [[{'k': 'str', 's': 'u'}, T0], [{'k': 'str', 's': 'v'}, inner]]}
+    if w < 0.5:
+        return t, {'k': 'coalesce', 'subs': [{'k': 'str', 's': 'zz'}, inner][rng.randint(0, 1):] + [{'k': 'str', 's': 'yy'}][:rng.randint(0, 1)],
+                   'dflt': None, 'dflt_factory': None, 'skip': None, 'skip_exc': ['GlomError']}
+    if w < 0.58:
+        return t, {'k': 'or', 'cs': [{'k': 'str', 's': 'zz'}, inner], 'dflt': None}
+    if w < 0.66:
+        return t, {'k': 'switch', 'cases': [[{'k': 'str', 's': 'zz'}, T0], [T0, inner]], 'dflt': None}
+    # at a random leaf position of a random spec
+    depth = rng.choice([1, 2, 3])
+    spec = g.spec(t, depth)
+    # (not the function of a Call / Invoke: it has to be a callable)
+    pos = [q for q in leaf_positions(spec) if 'func' not in q and 'dflt_factory' not in q]
+    if pos:
+        return t, replace_at(spec, rng.choice(pos), inner)
+    return t, inner
+
+
+# ----------------------------------------------------------------- bbrepr alone, under arbitrary limits
+LIMIT_NAMES = ['maxlevel', 'maxtuple', 'maxlist', 'maxarray', 'maxdict', 'maxset', 'maxfrozenset', 'maxdeque',
+               'maxstring', 'maxlong', 'maxother']
+
+
+def random_value(rng, depth=0):
+    """any value of the modelled kinds (not only those that cross a limit)"""
+    import array
+    import collections
+    p = rng.random()
+    if depth >= 4 or p < 0.3:
+        q = rng.random()
+        if q < 0.3:
+            return rng.choice([0, 1, -7, 12345, 10 ** rng.randint(0, 50), -10 ** rng.randint(0, 45)])
+        if q < 0.7:
+            return ''.join(rng.choice('ab c\'"\\\n\t\x00\x7f\x85żó☃ \U0001f600xyz') for _ in range(rng.randint(0, 40)))
+        return rng.choice([None, True, 2.5, -0.0, float('inf'), b'bytes\'"\x00', len, print, int, ValueError, complex(1, 2), NAMED['range3'],
+                           1e-300, bytes(range(40)), Ellipsis, NotImplemented, sorted])
+    n = rng.randint(0, 9)
+    items = lambda: [random_value(rng, depth + 1) for _ in range(n)]
+    if p < 0.45:
+        return items()
+    if p < 0.55:
+        return tuple(items())
+    if p < 0.7:
+        kind = rng.random()
+        keys = (rng.sample(range(-30, 30), n) if kind < 0.4 else ['k%d' % i for i in rng.sample(range(40), n)] if kind < 0.8
+                else [(i if j % 2 else 's%d' % i) for j, i in enumerate(rng.sample(range(40), n))])
+        return {k: random_value(rng, depth + 1) for k in keys}
+    if p < 0.8:
+        xs = rng.sample(range(-30, 30), n) if rng.random() < 0.5 else ['e%d' % i for i in rng.sample(range(40), n)]
+        return set(xs) if rng.random() < 0.5 else frozenset(xs)
+    if p < 0.9:
+        return collections.deque(items())
+    if rng.random() < 0.5:
+        return array.array(rng.choice('bilq'), [rng.randint(-100, 100) for _ in range(n)])
+    return array.array('d', [rng.randint(-100, 100) / 4 for _ in range(n)])
+
+
+def repr_unit_case(rng):
+    v = random_value(rng) if rng.random() < 0.6 else limit_value(rng)
+    lims = {}
+    style = rng.random()
+    for nm in LIMIT_NAMES:
+        lims[nm] = (rng.randint(0, 12) if style < 0.5 else rng.choice([0, 1, 2, 3, 4, 5, 6, 7, 30, 40, 1024]) if style < 0.8
+                    else rng.randint(4, 60))
+    return {'reprcase': {'limits': [[k, lims[k]] for k in LIMIT_NAMES], 'v': enc5(v)}, '_gen': True}
+
+
+def run_repr_unit(case):
+    """bbrepr's class with the given limits on the given value"""
+    from glom import core
+    rc = case['reprcase']
+    v = dec5(rc['v'], {})
+    inst = core._BBRepr()
+    for k, n in rc['limits']:
+        setattr(inst, k, n)
+    st = {'n': 0, 'np': set()}
+    out = {'reprcase': {'limits': rc['limits'], 'v': rc['v']}}
+    try:
+        val = rv_enc(v, st)
+    except Unencodable as e:
+        out['reprcase'].update({'value': {'o': '', 'bn': None}, 'impl': '', 'skip': str(e)})
+        return out
+    out['reprcase'].update({'value': val, 'impl': inst.repr(v)})
+    out['np'] = sorted(st['np'])
+    return out
 
 
 class C05Gen(Gen):
@@ -252,11 +706,13 @@ def leaf_positions(j, path=(), out=None):
     if out is None:
         out = []
     if isinstance(j, dict):
-        if j.get('k') in ('fn', 't', 'str') and j.get('kind') != 'x_check':
+        if j.get('k') in ('fn', 't', 'str') and j.get('kind') not in ('x_check', 'x_val'):
             out.append(path)
             return out
         for key_, v in j.items():
             if key_ in ('v', 'scope', 'skip', 'dflt_factory', 'skip_exc', 'defaults', 'base', 'equal_to'):
+                continue
+            if j.get('kind') == 'x_val':
                 continue
             if key_ in ('es',):
                 for i, pair in enumerate(v):
@@ -299,6 +755,7 @@ def trace_run(target, spec, width=None):
             return None
 
     repr_failed = []
+    vst = {'n': 0, 'np': set()}
 
     def fmt(v):
         try:
@@ -309,7 +766,7 @@ def trace_run(target, spec, width=None):
 
     def tracer(t, s, scope):
         rec = {'parent': id(scope), 'flag': NO_PYFRAME in scope.maps[0], 'spec': fmt(s), 'target': fmt(t),
-               'tid': id(t), 'tlen': val_len(t), 'slen': val_len(s)}
+               'tid': id(t), 'tlen': val_len(t), 'slen': val_len(s), 'sv': rv_opt(s, vst), 'tv': rv_opt(t, vst)}
         calls.append(rec)
         keep.append((scope, t, s))
         events.append(('enter', rec))
@@ -355,7 +812,7 @@ def trace_run(target, spec, width=None):
             return errs[id(e)][0]
         root_rec = root_frame.maps[0]
         ev_out = [['enter', 0, False, fmt(root_rec[core.Spec]), fmt(root_rec[core.T]), tid(id(root_rec[core.T])),
-                   val_len(root_rec[core.T]), val_len(root_rec[core.Spec])]]
+                   val_len(root_rec[core.T]), val_len(root_rec[core.Spec]), rv_opt(root_rec[core.Spec], vst), rv_opt(root_rec[core.T], vst)]]
         ok = True
         for kind, x in events:
             if kind == 'enter':
@@ -363,7 +820,7 @@ def trace_run(target, spec, width=None):
                 if p is None:
                     ok = False
                     break
-                ev_out.append(['enter', p, x['flag'], x['spec'], x['target'], tid(x['tid']), x['tlen'], x['slen']])
+                ev_out.append(['enter', p, x['flag'], x['spec'], x['target'], tid(x['tid']), x['tlen'], x['slen'], x['sv'], x['tv']])
             elif kind == 'ok':
                 ev_out.append(['ok'])
             else:
@@ -372,7 +829,7 @@ def trace_run(target, spec, width=None):
             return None
         ev_out.append(['err', eid(wrapped)])
         return {'events': ev_out, 'errors': [[n, t] for n, t in errs.values()], 'root_error': eid(wrapped),
-                'width': core.TRACE_WIDTH,
+                'width': core.TRACE_WIDTH, 'np': sorted(vst['np']),
                 'impl': {'trace': getattr(exc, '_target_spec_trace', ''), 'message': text, 'msg_width': core.TRACE_WIDTH,
                          'raised': type(exc).__name__,
                          'str_failed': str_failed or ('bbrepr:' + repr_failed[0] if repr_failed else None)}}
@@ -610,6 +1067,13 @@ def build_selfref(sr):
     return spec
 
 
+# the classes of values crossing reprlib's limits (C05-s9); a switch for the case that they expose a defect of the
+# unchanged tree (none so far)
+LIMIT_VALUES = True
+P_LIMIT = 0.16
+P_REPR_UNIT = 0.10
+
+
 def generate(rng, tier, scale, **focus):
     want = (2500 if tier == 'quick' else 40000) * scale
     made = 0
@@ -644,6 +1108,15 @@ def generate(rng, tier, scale, **focus):
             if pos:
                 spec = replace_at(spec, rng.choice(pos), g.xfn())
         case = {'spec': spec, 'target': ic.enc(t), 'width': rng.choice(WIDTHS), '_gen': True}
+        lq = rng.random()
+        if lq < P_LIMIT and LIMIT_VALUES:
+            # a target / spec value that crosses a default size limit of reprlib, at a random position
+            t5, spec5 = limit_case(rng, g, tier)
+            case = {'spec': spec5, 'target': enc5(t5), 'width': rng.choice(WIDTHS), '_gen': True}
+        elif lq < P_LIMIT + P_REPR_UNIT and LIMIT_VALUES:
+            yield repr_unit_case(rng)
+            made += 1
+            continue
         if rng.random() < 0.03:
             # a self-referential container below which a T leaf fails: str(exc) must still work
             case = {'spec': {'k': 't', 'steps': []}, 'target': ic.enc({'a': 1}), 'width': rng.choice(WIDTHS), '_gen': True,
@@ -671,8 +1144,10 @@ def corpus():
 def run_impl(case):
     """spec/target -> recorded evaluation; a case that does not fail is trivially fine (skipped by the driver)"""
     import glom as G
+    if case.get('reprcase'):
+        return run_repr_unit(case)
     fns = {}
-    target = ic.dec(case['target'], fns)
+    target = dec5(case['target'], fns)
     spec = build_selfref(case['selfref']) if case.get('selfref') else build(case['spec'], fns)
     if case.get('stale_first'):
         try:
@@ -761,11 +1236,15 @@ def _rerender(target, spec, width, rec):
 
 
 def key(case):
+    if case.get('reprcase'):
+        return {'reprcase': [case['reprcase'].get('limits'), case['reprcase'].get('v')]}
     return {'events': case.get('events'), 'width': case.get('width'), 'errors': case.get('errors'),
             'stale_first': bool(case.get('stale_first')), 'selfref': case.get('selfref')}
 
 
 def nontrivial(case, verdict):
+    if case.get('reprcase'):
+        return 'elided' in verdict.get('branch', '') and len(case['reprcase'].get('impl', '')) > 8
     evs = case.get('events') or []
     if len([e for e in evs if e[0] == 'enter']) < 3:
         return False
@@ -773,8 +1252,67 @@ def nontrivial(case, verdict):
     return 'branching' in b or 'chain' in b or '...' in (case.get('impl') or {}).get('trace', '')
 
 
+def shrink_value(j):
+    """smaller values of the extended codec: an item instead of the container, an item dropped, a shorter leaf"""
+    if not isinstance(j, dict):
+        return
+    for k in ('l', 't', 'set', 'fs', 'dq'):
+        if k in j:
+            xs = j[k]
+            for x in xs:
+                yield x
+            for i in range(len(xs)):
+                yield {k: xs[:i] + xs[i + 1:]}
+            for i in range(len(xs)):
+                for sub in shrink_value(xs[i]):
+                    yield {k: xs[:i] + [sub] + xs[i + 1:]}
+            return
+    if 'd' in j:
+        es = j['d']
+        for k_, v in es:
+            yield v
+        for i in range(len(es)):
+            yield {'d': es[:i] + es[i + 1:]}
+        for i in range(len(es)):
+            for sub in shrink_value(es[i][1]):
+                yield {'d': es[:i] + [[es[i][0], sub]] + es[i + 1:]}
+        return
+    if 's' in j and len(j['s']) > 1:
+        yield {'s': j['s'][:len(j['s']) // 2]}
+        yield {'s': j['s'][:-1]}
+    if 'i' in j and abs(j['i']) > 9:
+        yield {'i': j['i'] // 10}
+    if 'by' in j and len(j['by']) > 1:
+        yield {'by': j['by'][:-1]}
+
+
+def shrink_xvals(j):
+    """the spec with the value of one `x_val` made smaller"""
+    if isinstance(j, dict):
+        if j.get('kind') == 'x_val':
+            for v in shrink_value(j['v']):
+                c = dict(j); c['v'] = v
+                yield c
+            return
+        for key_, v in j.items():
+            if isinstance(v, (dict, list)):
+                for sub in shrink_xvals(v):
+                    c = dict(j); c[key_] = sub
+                    yield c
+    elif isinstance(j, list):
+        for i in range(len(j)):
+            if isinstance(j[i], (dict, list)):
+                for sub in shrink_xvals(j[i]):
+                    yield j[:i] + [sub] + j[i + 1:]
+
+
 def shrink(case):
     from harness.props import c03
+    if case.get('reprcase'):
+        rc = case['reprcase']
+        for v in shrink_value(rc['v']):
+            yield {'reprcase': {'limits': rc['limits'], 'v': v}}
+        return
     if case.get('selfref'):
         sr = dict(case['selfref'])
         if sr.get('wrap'):
@@ -783,8 +1321,14 @@ def shrink(case):
             c['selfref'] = sr
             yield c
         return
-    for c in c03.shrink({'spec': case['spec'], 'target': case['target']}):
+    def keep(c):
         c['width'] = case.get('width')
         if case.get('stale_first'):
             c['stale_first'] = True
-        yield c
+        return c
+    for c in c03.shrink({'spec': case['spec'], 'target': case['target']}):
+        yield keep(c)
+    for v in shrink_value(case['target']):
+        yield keep({'spec': case['spec'], 'target': v})
+    for sp in shrink_xvals(case['spec']):
+        yield keep({'spec': sp, 'target': case['target']})
